@@ -185,7 +185,7 @@ class ExecGen:
             f, t, idx, T = r.choice(self.hub_open)
             out = f.count(":") == 1
             typ = r.choices(["ok", "fail", "rb"], [0.55, 0.3, 0.15])[0]
-            pk = r.choices(["msig2", "msig3", "msig4", "msig1", "msig6", "ok", "bad"], [4, 2, 1, 2, 1, 1, 1])[0] if out else r.choices(["ok", "bad", "msig2"], [8, 1, 1])[0]
+            pk = r.choices(["msig2", "msig3", "msig4", "msig1", "msig6", "msigd3", "ok", "bad"], [4, 2, 1, 2, 1, 1, 1, 1])[0] if out else r.choices(["ok", "bad", "msig2"], [8, 1, 1])[0]
             if r.random() < 0.12:
                 idx = max(0, idx + r.choice([1, -1]))
             self.tags.add("hub:receipt:" + typ + ":" + ("out" if out else "in") + ":" + pk)
@@ -206,7 +206,7 @@ class ExecGen:
             signer = self.signer(f)
         else:
             f, t = r.choice(self.REMOTE), r.choice(SERVICES)
-            pk = r.choices(["msig2", "msig3", "msig1", "ok", "bad"], [5, 2, 2, 1, 1])[0]
+            pk = r.choices(["msig2", "msig3", "msig1", "msigd2", "ok", "bad"], [5, 2, 2, 1, 1, 1])[0]
             signer = "ca9"
         nxt = self.hub_next.get((f, t), 1)
         idx = nxt if r.random() < 0.8 else max(0, nxt + r.choice([-1, 1, 2]))
